@@ -413,6 +413,8 @@ def main(argv):
     known_hits = {}
     violations = []
     os.makedirs(os.path.join(VERIF, 'replays'), exist_ok=True)
+    for old in glob.glob(os.path.join(VERIF, 'replays', f'{prop}_*.json')):
+        os.remove(old)     # replays of earlier runs of this property are stale
     for sig, f in sorted(total.findings.items()):
         if sig in known:
             known_hits[sig] = f['count']
